@@ -486,6 +486,18 @@ def run(prog, rep):
 
     rep.rule('R9', 'deep writers store the children of a sliver whenever it carries them', floor=4)
     check_deep_writers(prog, rep, 'R9')
+    # R10: deep readers collect ALL children: the container a loop fills is created once, before the loop
+    rep.rule('R10', 'deep builders create the child container once per parent (not once per child)', floor=8)
+    from ..lints import containers_filled_in_loops
+    for mname, fn in sorted(apg.methods.items()):
+        if not mname.startswith('build_deep_'):
+            continue
+        for var, loop, creation, where in containers_filled_in_loops(fn):
+            rep.instance('R10', f'{mname}: {var} filled in the loop over {norm(loop.iter, 40) if isinstance(loop, ast.For) else "while"}, created {where} it')
+            if where == 'inside':
+                rep.violation('R10', loc(apg.module, creation), f'ABCPropertyGraph.{mname}', f'child container created inside the loop that fills it',
+                              f'`{var}` is created anew in every iteration of the loop over the children and read after the loop: only the '
+                              f'last child survives, a parent with two or more children of that kind comes back with one')
 
     # R6 deep dictionary
     s2d = apg.methods.get('sliver_to_dict')
